@@ -3,6 +3,7 @@ package streamfilter
 import (
 	internaltypes "lunar/engine/streams/internal-types"
 	publictypes "lunar/engine/streams/public-types"
+	"lunar/engine/utils"
 
 	"github.com/rs/zerolog/log"
 )
@@ -59,8 +60,16 @@ func (node *FilterNode) isStatusCodeQualified(
 		return true
 	}
 
+	// After an early response the flows are looked up again as a response while
+	// no response message exists yet: there is no status to compare with.
+	response := APIStream.GetResponse()
+	if utils.IsInterfaceNil(response) {
+		log.Trace().Msgf("No response to take the status code from on Flow: %s", flow.GetName())
+		return false
+	}
+
 	for _, statusCode := range allowedStatusCodes {
-		if statusCode == APIStream.GetResponse().GetStatus() {
+		if statusCode == response.GetStatus() {
 			log.Trace().Msgf("Status code is qualified for Flow: %s", flow.GetName())
 			return true
 		}
